@@ -352,21 +352,7 @@ func rule164(r *core.Run, mws []hostMW) {
 	}
 	logOnly := func(in ssa.Instruction, v ssa.Value) bool {
 		// a value whose only use is as an argument of the logger is not a decision
-		refs := v.Referrers()
-		if refs == nil || len(*refs) == 0 {
-			return false
-		}
-		for _, u := range *refs {
-			c, ok := u.(ssa.CallInstruction)
-			if !ok {
-				return false
-			}
-			cn := r.P.CalleeName(c)
-			if !strings.Contains(cn, "Logger") && !strings.HasPrefix(cn, "log.") {
-				return false
-			}
-		}
-		return true
+		return v != nil && onlyLogged(r, v)
 	}
 	nReads := 0
 	for _, f := range r.P.RepoFuncs() {
